@@ -41,6 +41,10 @@ class Script:
     def peek(self):
         return self.letters[self.i] if self.i < len(self.letters) else self.default
 
+    # letters may be a list mixing one-character strings and dicts:
+    #   dict(frag=k, delay=seconds, second='exact'|'plus'|'minus'|'corrupt'|'foreign'|'none')   two fragments split at byte k
+    #   dict(exc=code)                                                                    Modbus exception frame with that code
+
     def next(self):
         l = self.peek()
         self.i += 1
@@ -105,6 +109,27 @@ class Peer:
         T = s.timeout
         if req is None or letter == 'D':
             pass
+        elif isinstance(letter, dict):
+            ok = F.valid_response(req, s.payload_fn)
+            if 'exc' in letter:
+                self._send(F.exception_response(req, letter['exc']) if req['kind'] != 'aa55' else ok)
+            else:
+                k = max(1, min(letter['frag'], len(ok) - 1))
+                first, rest = ok[:k], ok[k:]
+                kind2 = letter.get('second', 'exact')
+                if kind2 == 'plus': rest = rest + b'\x00'
+                elif kind2 == 'minus': rest = rest[:-1]
+                elif kind2 == 'corrupt': rest = bytes([rest[0] ^ 0x10]) + rest[1:]
+                elif kind2 == 'foreign':
+                    other = dict(req); other['reg'] = (req.get('reg', 0) + 1) & 0xFFFF
+                    if req['kind'] == 'aa55': other = req
+                    alt = F.valid_response(other, lambda r, c: bytes((x + 1) & 255 for x in s.payload_fn(r, c)))
+                    rest = alt[k:]
+                self._send(first)
+                if kind2 != 'none':
+                    d = letter.get('delay', T / 4)
+                    if d <= 0: self._send(rest)
+                    else: self._later(d, rest)
         else:
             ok = F.valid_response(req, s.payload_fn)
             rnd = random.Random(len(s.log) * 7919 + len(raw))
